@@ -9,10 +9,10 @@ import (
 )
 
 type Loop struct {
-	Header *ssa.BasicBlock
-	Body   map[*ssa.BasicBlock]bool
+	Header  *ssa.BasicBlock
+	Body    map[*ssa.BasicBlock]bool
 	Ordinal int
-	WS     *WriteSet
+	WS      *WriteSet
 }
 
 type LoopInfo struct {
